@@ -86,10 +86,11 @@ AddDelegate(o, add) ==
   LET this == Op("AddDelegate", o, None, None, add, None, <<>>, "ok")
       okk  == approved[o] /\ reg[o]
               /\ (add > 0 \/ pen[o])          \* a zero amount is refused by stateless validation
+              /\ (delegated[o] \/ add > 0)    \* stake a removal undelegated no longer counts: the new stake must reach the minimum
   IN IF ~okk THEN Rej(this) ELSE
      /\ online' = [online EXCEPT ![o] = TRUE]
      /\ pen' = [pen EXCEPT ![o] = FALSE]
-     /\ power' = [power EXCEPT ![o] = @ + add]
+     /\ power' = [power EXCEPT ![o] = (IF delegated[o] THEN @ ELSE 0) + add]
      /\ delegated' = [delegated EXCEPT ![o] = IF add > 0 THEN TRUE ELSE @]
      /\ totalPower' = OnlineSum(online', reg, power')
      /\ mops' = mops + 1 /\ op' = this
@@ -109,7 +110,7 @@ Slash(o) ==
 
 (* MsgUpdateChainOracles(S): refused if the online power removed is > 0    *)
 (* and >= 30% of the online power; removed registered oracles that were    *)
-(* approved are undelegated and go offline (needs a delegation to exist);  *)
+(* approved are undelegated (if anything is delegated) and go offline;     *)
 (* the recorded total power is NOT refreshed (it can only be too high).    *)
 GovSet(S) ==
   LET this    == Op("GovSet", None, None, None, 0, None, [o \in Oracle |-> o \in S], "ok")
@@ -118,7 +119,6 @@ GovSet(S) ==
       del     == SumSet({o \in removed : online[o]}, power)
       okk     == /\ S # {}                   \* an empty list is refused by stateless validation
                  /\ ~(del > 0 /\ del >= (30 * tot) \div 100)
-                 /\ \A o \in removed : delegated[o]
   IN IF ~okk THEN Rej(this) ELSE
      /\ approved' = [o \in Oracle |-> o \in S]
      /\ online' = [o \in Oracle |-> IF o \in removed THEN FALSE ELSE online[o]]
